@@ -38,12 +38,12 @@ type rawFrame struct {
 
 // rawActor speaks the rawsocket wire format by hand over a SimConn.
 type rawActor struct {
-	c      *Ctx
-	conn   *SimConn
-	ser    serialize.Serializer
-	frames []rawFrame // frames received from the router, in order
-	eof    bool
-	done   chan struct{}
+	c          *Ctx
+	conn       *SimConn
+	ser        serialize.Serializer
+	frames     []rawFrame // frames received from the router, in order
+	eof        bool
+	done       chan struct{}
 	stallUntil time.Duration // the actor does not read before this virtual time (a client that stops reading for a while)
 }
 
